@@ -10,6 +10,9 @@ def run(ctx):
     q = ctx.tier == "quick"
     common.replay_layer(ctx, "MC_Reporters.tla", "MC_Reporters_quick.cfg" if q else "MC_Reporters_thorough.cfg", "reporters-replay", "reporters",
                         workers=10, heap="3g", shape_filter=lambda sh: sh.startswith(REG_SHAPES) or sh.startswith("summary-"))
+    if not q:
+        common.replay_layer(ctx, "MC_Reporters.tla", "MC_Reporters_thorough4.cfg", "reporters-replay", "reporters4", workers=12, heap="6g", timeout=3000,
+                            shape_filter=lambda sh: sh.startswith(REG_SHAPES) or sh.startswith("summary-"))
     # random logs of up to 8 days x up to 8 entries (foods repeating within a day) over nested books: the real
     # reporters' per-day chunks validated step by step against Trace_Reporters.tla
     common.trace_layer(ctx, "reporters-trace", "Trace_Reporters.tla", "Trace_Reporters.cfg", "reporters", "reporters-trace-rejected",
